@@ -144,7 +144,19 @@ class GradientCase(Case):
         ev = ens.AffineEvaluator(env, inp["A"], inp["c"], inp["flags"], self.K, nan_col=getattr(self, "nan_col", None))
         ee = EnsembleEvaluator(cfg, None, ev, pm)
         x = env.const(self.xv)
-        if self.split:
+        if self.split == "moved":
+            # functions at x, then a gradient-only request at a point that differs from x in a *fixed* variable
+            # only (a nested plan moves it): nothing cached for x may be used
+            x2v = self.xv.copy()
+            x2v[[j for j in range(self.N) if j not in self.free][0]] += 0.5
+            (fr,) = ee.calculate(x, compute_functions=True, compute_gradients=False)
+            res = ee.calculate(env.const(x2v), compute_functions=False, compute_gradients=True)
+            gr = [r for r in res if hasattr(r, "gradients")][0]
+            fr = [r for r in res if hasattr(r, "functions")]
+            fr = fr[0] if fr else None
+            if fr is None:   # the props need a function result for the same point
+                (fr,) = EnsembleEvaluator(cfg, None, ev, pm).calculate(env.const(x2v), compute_functions=True, compute_gradients=False)
+        elif self.split:
             (fr,) = ee.calculate(x, compute_functions=True, compute_gradients=False)
             (gr,) = ee.calculate(x, compute_functions=False, compute_gradients=True)
         else:
@@ -374,6 +386,7 @@ def build_cases(tier):
     add(N=2, R=3, P=2, symflags="unperturbed", design="axes")
     add(N=2, R=2, P=3, symflags="r0", shared=True, split=True)
     add(N=3, R=2, P=3, mask=(True, False, True), sampler_map=(0, 0, 1), symflags="unperturbed")
+    add(N=3, R=2, P=3, mask=(True, False, True), symflags="none", split="moved")   # only a fixed variable moved since the cached functions
     add(N=3, R=2, P=3, mask=(False, True, True), sampler_map=(1, 0, 1), symflags="none", K=2)
     add(N=2, R=2, P=2, symflags="all", boundary="mirror_both", lower=-0.05, upper=0.05, x=(0.0, 0.03), magnitude=0.1)
     # a realization that fails in a constraint value only; constraints outnumbering objectives
